@@ -19,7 +19,12 @@ var errBoom = errors.New("verif: injected reader failure")
 
 // vFailReader delivers exactly k bytes, then fails. together=true returns the
 // last bytes and the error from the same Read call.
+// failure values a reader may return: a plain error, and errors that merely WRAP
+// io.EOF / io.ErrUnexpectedEOF (they are not end-of-input)
+var vBoomErrors = []error{errBoom, fmt.Errorf("verif: link reset (%w)", io.ErrUnexpectedEOF), fmt.Errorf("verif: short read: %w", io.EOF)}
+
 type vFailReader struct {
+	err      error
 	data     []byte
 	k        int
 	pos      int
@@ -28,8 +33,12 @@ type vFailReader struct {
 }
 
 func (f *vFailReader) Read(p []byte) (int, error) {
+	boom := f.err
+	if boom == nil {
+		boom = errBoom
+	}
 	if f.pos >= f.k {
-		return 0, errBoom
+		return 0, boom
 	}
 	n := f.k - f.pos
 	if n > len(p) {
@@ -41,7 +50,7 @@ func (f *vFailReader) Read(p []byte) (int, error) {
 	copy(p, f.data[f.pos:f.pos+n])
 	f.pos += n
 	if f.together && f.pos >= f.k {
-		return n, errBoom
+		return n, boom
 	}
 	return n, nil
 }
@@ -220,8 +229,9 @@ func TestVerifC08(t *testing.T) {
 	}
 
 	checkFail := func(cs *vCase, in []byte, k int, together bool, chunk int) bool {
-		res, err := c.MatchFrom(&vFailReader{data: in, k: k, together: together, chunk: chunk})
-		if err != errBoom {
+		boom := vBoomErrors[(k+chunk)%len(vBoomErrors)]
+		res, err := c.MatchFrom(&vFailReader{data: in, k: k, together: together, chunk: chunk, err: boom})
+		if err != boom {
 			cs.violation("reader-error-not-returned", "reader failed after %d of %d bytes (together=%v); MatchFrom returned err=%v", k, len(in), together, err)
 			return false
 		}
